@@ -130,6 +130,7 @@ fn main() {
         "c20" => capi::c20_cases(&mut rng, &tier, &mut out),
         "c20-rt" => capi::c20_rt_cases(&mut rng, &tier, &mut out),
         "c20r" => capiread::c20r_cases(&mut rng, &tier, &mut out),
+        "c12-capi" => capiread::c12_capi_cases(&mut rng, &tier, &mut out),
         "c15" => mem::c15_cases(&mut rng, &tier, &mut out),
         "c15-dims" => memdims::c15_dims_cases(&mut rng, &tier, &mut out),
         "c15-blocks" => memdims::c15_blocks_cases(&mut rng, &tier, &mut out),
